@@ -31,11 +31,103 @@ def setup(tier, seed):
   _S['tier'] = tier
 
 
+REAN_MENUS = ('clos', 'alias', 'trans', 'deep', 'targets', 'state')
+
+
 def items(tier, seed):
   # every program is analysed with two epilogues: x read at the end / nothing read at the end
   for k in c06.items(tier, seed):
     yield k + (('x',),)
     yield k + ((),)
+  # the same tree analysed, edited in place (a variable renamed, a statement inserted) and analysed again - what the
+  # converter pipeline does after every pass - must be annotated like a fresh parse of the edited program
+  nmax = 3 if tier == 'quick' else 4
+  seen = set()
+  for name in REAN_MENUS:
+    menu = MENUS[name]
+    for n in range(1, nmax + 1):
+      for body in ps.blocks(n, menu):
+        if (name, body) not in seen:
+          seen.add((name, body))
+          yield ('rean', name, body)
+
+
+def pipeline(fn):
+  from malt.pyct import cfg, naming, qual_names, transformer
+  from malt.pyct.static_analysis import activity, liveness, reaching_definitions, reaching_fndefs
+  info = transformer.EntityInfo(name='f', source_code='', source_file=None, future_features=(), namespace={})
+  ctx = transformer.Context(info, naming.Namer({}), None)
+  fn = qual_names.resolve(fn)
+  fn = activity.resolve(fn, ctx, None)
+  graphs = cfg.build(fn)
+  fn = reaching_definitions.resolve(fn, ctx, graphs)
+  fn = reaching_fndefs.resolve(fn, ctx, graphs)
+  fn = liveness.resolve(fn, ctx, graphs)
+  return fn
+
+
+def annotations(fn):
+  """Per statement (document order): live-in / live-out / scope read / modified / bound, as sorted strings."""
+  from malt.pyct import anno
+  from malt.pyct.static_analysis import annos
+  out = []
+  for n in ast.walk(fn):
+    if not isinstance(n, ast.stmt):
+      continue
+    row = [type(n).__name__]
+    for key in (anno.Static.LIVE_VARS_IN, anno.Static.LIVE_VARS_OUT):
+      v = anno.getanno(n, key, None)
+      row.append(None if v is None else tuple(sorted(str(q) for q in v)))
+    sc = anno.getanno(n, anno.Static.SCOPE, None)
+    if sc is None and isinstance(n, (ast.FunctionDef,)):
+      sc = anno.getanno(n, annos.NodeAnno.ARGS_AND_BODY_SCOPE, None)
+    if sc is None:
+      row += [None, None, None]
+    else:
+      row += [tuple(sorted(str(q) for q in sc.read)), tuple(sorted(str(q) for q in sc.modified)), tuple(sorted(str(q) for q in sc.bound))]
+    out.append(tuple(row))
+  return out
+
+
+def check_reanalysis(item):
+  from malt.pyct import ast_util, qual_names
+  _, name, body = item
+  src = ps.source(body, pro=('x',), epi=('x',), pid=0)
+  try:
+    compile(src, '<gen>', 'exec')
+  except SyntaxError:
+    return src, None
+  tree = ast.parse(src)
+  fn = tree.body[-1]
+  pipeline(fn)
+  # in-place edits of the analysed tree: rename x, insert a statement using a new name at the top and one at the end
+  ast_util.rename_symbols(fn, {qual_names.QN('x'): qual_names.QN('x_renamed')})
+  fn.body.insert(0, ast.parse('fresh_first = 1').body[0])
+  fn.body.insert(len(fn.body) - 1, ast.parse('fresh_last = fresh_first').body[0])
+  ast.fix_missing_locations(tree)
+  edited = ast.unparse(tree)
+  try:
+    compile(edited, '<gen2>', 'exec')
+  except SyntaxError:
+    return src, None
+  pipeline(fn)
+  again = annotations(fn)
+  fresh_fn = ast.parse(edited).body[-1]
+  pipeline(fresh_fn)
+  fresh = annotations(fresh_fn)
+  viol = []
+  if len(again) != len(fresh):
+    viol.append(('reanalysis-shape', 're-analysed tree has %d statements, the fresh parse of the edited program %d' % (len(again), len(fresh))))
+  else:
+    labels = ('live-in', 'live-out', 'scope.read', 'scope.modified', 'scope.bound')
+    for k, (a, b) in enumerate(zip(again, fresh)):
+      if a != b:
+        j = [i for i in range(1, 6) if a[i] != b[i]]
+        which = labels[j[0] - 1] if j else 'node'
+        viol.append(('reanalysis-' + which.split('.')[0], 'statement %d (%s) of the edited program: %s after re-analysis of the edited tree is %r, a fresh analysis gives %r\nedited program:\n%s' % (
+            k, a[0], which, a[j[0]] if j else a, b[j[0]] if j else b, edited)))
+        break
+  return src, viol
 
 
 def item_source(item):
@@ -163,6 +255,12 @@ def reduce_and_sign(item, kind):
 
 def check(item):
   tier = _S['tier']
+  if item[0] == 'rean':
+    src, viol = check_reanalysis(item)
+    if viol is None:
+      return {'n': {'invalid_programs_skipped': 1}}
+    out = [util.V('%s|%s|%s' % (k, item[1], ps.skeleton(item[2])), '%s: %s' % (k, m), item, source=src) for k, m in viol]
+    return {'viol': out, 'n': {'evaluations': 3, 'reanalysed_programs': 1}, 'outcome': src, 'nontrivial': src}
   src = item_source(item)
   try:
     compile(src, '<gen>', 'exec')
